@@ -260,7 +260,102 @@ class Facts:
     def get(self, t):
         if is_const(t):
             return ISet.of(const_val(t))
-        return self.c.get(key_of(t), ISet.all())
+        k = key_of(t)
+        r = self.c.get(k, ISet.all())
+        s = self.structural(k)
+        if s is not None:
+            r = r.inter(s)
+        return r
+
+    def structural(self, t, depth=0):
+        """value range implied by the shape of the term alone (masks, casts, table contents, lengths)"""
+        if depth > 6 or not isinstance(t, tuple) or not t:
+            return None
+        k = t[0]
+        if is_const(t):
+            return ISet.of(const_val(t))
+        if k == "bin":
+            op, a, b, ty = t[1], t[2], t[3], t[4] if len(t) > 4 else None
+            if ty == "bool" or op in CMP_NEG:
+                return ISet.range(0, 1)
+            tr = ty_range(ty) if ty else ISet.all()
+            if op == "BitAnd":
+                for x in (a, b):
+                    if is_const(x) and const_val(x) >= 0:
+                        return ISet.range(0, const_val(x)).inter(tr)
+                ra, rb = self._r(a, depth), self._r(b, depth)
+                his = [r.hi() for r in (ra, rb) if r is not None and r.lo() is not None and r.lo() >= 0 and r.hi() != INF]
+                if his:
+                    return ISet.range(0, min(his)).inter(tr)
+            if op == "Rem" and is_const(b) and const_val(b) > 0:
+                ra = self._r(a, depth)
+                if ra is not None and ra.lo() is not None and ra.lo() >= 0:
+                    return ISet.range(0, const_val(b) - 1)
+            if op == "Shr" and is_const(b):
+                ra = self._r(a, depth)
+                if ra is not None and ra.lo() is not None and ra.lo() >= 0 and ra.hi() != INF:
+                    return ISet.range(int(ra.lo()) >> const_val(b), int(ra.hi()) >> const_val(b))
+            if op in ("Add", "Sub", "Mul", "Shl", "BitOr"):
+                ra, rb = self._r(a, depth), self._r(b, depth)
+                if ra is not None and rb is not None and not ra.empty() and not rb.empty() and \
+                        ra.lo() != -INF and ra.hi() != INF and rb.lo() != -INF and rb.hi() != INF:
+                    if op == "Add":
+                        lo, hi = ra.lo() + rb.lo(), ra.hi() + rb.hi()
+                    elif op == "Sub":
+                        lo, hi = ra.lo() - rb.hi(), ra.hi() - rb.lo()
+                    elif op == "Mul" and ra.lo() >= 0 and rb.lo() >= 0:
+                        lo, hi = ra.lo() * rb.lo(), ra.hi() * rb.hi()
+                    elif op == "Shl" and ra.lo() >= 0 and rb.lo() >= 0 and rb.hi() < 64:
+                        lo, hi = int(ra.lo()) << int(rb.lo()), int(ra.hi()) << int(rb.hi())
+                    elif op == "BitOr" and ra.lo() >= 0 and rb.lo() >= 0:
+                        lo, hi = max(ra.lo(), rb.lo()), (1 << max(int(ra.hi()).bit_length(), int(rb.hi()).bit_length())) - 1
+                    else:
+                        return tr if not tr.is_all() else None
+                    res = ISet.range(lo, hi)
+                    if res.subset_of(tr):
+                        return res
+                    return tr if not tr.is_all() else None
+            return tr if not tr.is_all() else None
+        if k == "cast":
+            tr = ty_range(t[2])
+            if t[3] in ("widen", "int"):
+                ra = self._r(t[1], depth)
+                if ra is not None and ra.subset_of(tr):
+                    return ra
+            return tr if not tr.is_all() else None
+        if k == "len":
+            return ISet.range(0, (1 << 63) - 1)
+        if k == "un" and t[1] == "Not" and len(t) > 3 and t[3] == "bool":
+            return ISet.range(0, 1)
+        if k == "pure":
+            if t[1] == "index" and t[2][0][0] == "constarr":
+                vals = t[2][0][2]
+                ri = self._r(t[2][1], depth)
+                if ri is not None and ri.lo() is not None and ri.lo() >= 0 and ri.hi() != INF and ri.hi() < len(vals):
+                    vals = vals[int(ri.lo()):int(ri.hi()) + 1]
+                return ISet.range(min(vals), max(vals)) if vals else None
+            if t[1] in ("min", "max") and len(t[2]) == 2:
+                ra, rb = self._r(t[2][0], depth), self._r(t[2][1], depth)
+                if t[1] == "min":
+                    his = [r.hi() for r in (ra, rb) if r is not None and not r.empty()]
+                    los = [r.lo() for r in (ra, rb) if r is not None and not r.empty()]
+                    hi = min(his) if his else INF
+                    lo = min(los) if len(los) == 2 else -INF
+                    return ISet.range(lo, hi)
+                los = [r.lo() for r in (ra, rb) if r is not None and not r.empty()]
+                his = [r.hi() for r in (ra, rb) if r is not None and not r.empty()]
+                return ISet.range(max(los) if los else -INF, max(his) if len(his) == 2 else INF)
+        return None
+
+    def _r(self, t, depth):
+        if is_const(t):
+            return ISet.of(const_val(t))
+        k = key_of(t)
+        r = self.c.get(k)
+        s = self.structural(k, depth + 1)
+        if r is None:
+            return s
+        return r.inter(s) if s is not None else r
 
     def constrain(self, t, s):
         """term ∈ s; returns False when contradictory."""
